@@ -45,7 +45,7 @@ ScaleCases ==
   \cup { [shape |-> sh, n |-> k] : sh \in {"long-and", "long-or"}, k \in {65530, 65534, 65535, 65536, 65537, 65538, 65540, 65600, 70000, 131074} }
   \cup { [shape |-> "repeat", n |-> k] : k \in {-1, -1000000, 0, 1048576} }
   \cup { [shape |-> "block-value", n |-> k] : k \in 0..15 }
-  \cup { [shape |-> "unmarshal-nested", n |-> k] : k \in 0..12 }   \* nested blocks, nil values, block values bound to fields of every kind      \* a child block read as a value, under every operator
+  \cup { [shape |-> "unmarshal-nested", n |-> k] : k \in 0..14 }   \* nested blocks, nil values, block values bound to fields of every kind      \* a child block read as a value, under every operator
   \cup { [shape |-> sh, n |-> 0] : sh \in {"div-int-zero", "div-float-zero", "float-div-zero", "minint-neg", "int-overflow", "huge-float", "cmp-nan", "many-binds", "long-ident", "long-string"} }
 VARIABLES bs, phase, sc
 vars == <<bs, phase, sc>>
